@@ -297,14 +297,22 @@ pub fn check_egraph<N: Analysis<LArith>>(eg: &EGraph<LArith, N>, m: Model, rng: 
     Ok(())
 }
 
+thread_local! {
+    pub static DIRECTED: std::cell::RefCell<Option<(String, Vec<String>, String, usize, bool)>> = std::cell::RefCell::new(None);
+}
+
 pub fn run_case(rng: &mut Rng, bad: bool) -> CaseOut {
     let mut out = CaseOut::default();
-    let m = if rng.chance(2, 3) { M1 } else { M2 };
+    let directed = DIRECTED.with(|d| d.borrow().clone());
+    let m = if let Some(d) = &directed { if d.2 == "M2" { M2 } else { M1 } } else if rng.chance(2, 3) { M1 } else { M2 };
     let mut scope = vec!["p".to_string(), "q".to_string()];
     let mut fresh = 0;
     let d0 = rng.range(2, 4);
     let shadow = rng.chance(1, 3);
-    let t = gen_arith(rng, d0, &mut scope, &mut fresh, shadow);
+    let mut t = gen_arith(rng, d0, &mut scope, &mut fresh, shadow);
+    if let Some(d) = &directed {
+        t = d.0.clone();
+    }
     let pool = rule_pool(m);
     let mut chosen: Vec<RuleSpec> = vec![];
     let k = rng.range(2, 8);
@@ -316,9 +324,14 @@ pub fn run_case(rng: &mut Rng, bad: bool) -> CaseOut {
     if bad {
         chosen.push(bad_rule());
     }
-    let iters = rng.range(1, 5);
+    let mut iters = rng.range(1, 5);
     let extraction_subst = rng.chance(1, 2);
-    let use_runner = rng.chance(1, 4);
+    let mut use_runner = rng.chance(1, 4);
+    if let Some(d) = &directed {
+        chosen = d.1.iter().filter_map(|n| pool.iter().find(|r| r.name == n).cloned()).collect();
+        iters = d.3;
+        use_runner = d.4;
+    }
     let names: Vec<String> = chosen.iter().map(|r| format!("{}: {} => {}{}", r.name, r.lhs, r.rhs, r.not_free.map(|(s, v)| format!(" if ${s} not in ?{v}")).unwrap_or_default())).collect();
     let cj = J::obj(vec![("term", J::s(t.clone())), ("model", J::s(m.name)), ("rules", J::arr_s(&names)), ("iterations", J::I(iters as i64)), ("extraction_subst", J::B(extraction_subst)), ("runner", J::B(use_runner))]);
     let re: RecExpr<LArith> = RecExpr::parse(&t).unwrap();
@@ -419,5 +432,10 @@ pub fn run_case(rng: &mut Rng, bad: bool) -> CaseOut {
 
 pub fn run(args: &Args, rep: &mut Rep) {
     let bad = args.param_u("bad", 0) == 1;
-    drive(args, rep, move |rng, _| run_case(rng, bad));
+    // directed reproduction: term=... rules=a,b model=M1|M2 iters=n runner=0|1
+    let dir = args.params.get("term").map(|t| (t.clone(), args.param_s("rules", "").split(',').map(|x| x.to_string()).collect::<Vec<_>>(), args.param_s("model", "M1"), args.param_u("iters", 2) as usize, args.param_u("runner", 0) == 1));
+    drive(args, rep, move |rng, _| {
+        DIRECTED.with(|d| *d.borrow_mut() = dir.clone());
+        run_case(rng, bad)
+    });
 }
